@@ -207,6 +207,11 @@ pub fn gen_c03(rng: &mut Rng, d: &mut Dist, _idx: u64) -> Vec<String> {
         }
         out.push(line);
     }
+    if rng.chance(1, 3) {
+        let mut uniq = 1000u32;
+        let fc = rng.chance(1, 2);
+        producer_block(rng, d, &cl, &mut out, &mut uniq, fc);
+    }
     out
 }
 
@@ -367,6 +372,12 @@ pub fn gen_c09(rng: &mut Rng, d: &mut Dist, _idx: u64) -> Vec<String> {
                 out.push(format!("OP c fetch_group_topic_offset {} {}", h("grp"), h(&pick_topic(rng, d))));
             }
         }
+    }
+    // the producer's requests are requests of this client library too: headers and bodies must state what its builder was given
+    if rng.chance(1, 3) {
+        let mut uniq = 5000u32;
+        let fc = rng.chance(1, 2);
+        producer_block(rng, d, &cl, &mut out, &mut uniq, fc);
     }
     out
 }
@@ -661,9 +672,20 @@ pub fn gen_c11(rng: &mut Rng, d: &mut Dist, _idx: u64) -> Vec<String> {
         }
         _ => {
             bump(d, "api-send");
-            out.push(format!("OP producer_create hosts={}", cl.bootstrap()));
+            let acks = *rng.pick(&[1i64, -1]);
+            bump(d, &format!("send-acks-{}", acks));
+            let mut opts = vec![format!("acks={}", acks)];
+            if rng.chance(1, 2) {
+                opts.push(format!("partitioner={}", rng.below(3)));
+            }
+            rng.shuffle(&mut opts);
+            out.push(format!("OP producer_create hosts={} {}", cl.bootstrap(), opts.join(" ")));
             out.push(fault(0));
-            out.push(format!("OP send {} {} - aa", h(&victim_t.name), victim_p));
+            if rng.chance(1, 2) {
+                out.push(format!("OP send {} {} - aa", h(&victim_t.name), victim_p));
+            } else {
+                out.push(format!("OP send_all {} {} - aa", h(&victim_t.name), victim_p));
+            }
         }
     }
     out
@@ -1246,11 +1268,22 @@ pub fn gen_c05(rng: &mut Rng, d: &mut Dist, _idx: u64) -> Vec<String> {
                 }
                 (t.name.clone(), p)
             };
-            let k = if rng.chance(1, 2) { None } else { Some(rng.bytes(2)) };
+            // keys: absent, present but empty, or two bytes (an empty key is a key)
+            let k = match rng.below(5) {
+                0 | 1 => None,
+                2 => Some(vec![]),
+                _ => Some(rng.bytes(2)),
+            };
             let mut v = uniq.to_be_bytes().to_vec();
             let extra = rng.below(4) as usize;
             v.extend(rng.bytes(extra));
-            line.push_str(&format!(" {} {} {} {}", h(&t), p, opt_tok(&k), hex(&v)));
+            // now and then a value that is present but empty, or absent
+            let vtok = match rng.below(20) {
+                0 => "-".to_string(),
+                1 => "~".to_string(),
+                _ => hex(&v),
+            };
+            line.push_str(&format!(" {} {} {} {}", h(&t), p, opt_tok(&k), vtok));
         }
         bump(d, if unknown { "batch-with-unknown-destination" } else { "batch-all-known" });
         out.push(line);
@@ -1713,7 +1746,11 @@ pub fn gen_c04(rng: &mut Rng, d: &mut Dist, idx: u64) -> Vec<String> {
     bump(d, if on { "validation-on" } else { "validation-off" });
     out.push(format!("OP c set crc {}", if on { 1 } else { 0 }));
     out.push("OP c load_metadata_all".into());
-    out.push(format!("OP c fetch_messages {} 0 0 -1", h(&t.name)));
+    // the fetch may start anywhere inside the entry: the broker still returns the whole entry, messages below the asked
+    // offset included, and every one of them is a fetched message whose checksum counts
+    let from = if rng.chance(1, 2) { 0 } else { rng.below(n as u64) };
+    bump(d, if from == 0 { "fetch-from-start" } else { "fetch-from-inside" });
+    out.push(format!("OP c fetch_messages {} 0 {} -1", h(&t.name), from));
     out
 }
 
@@ -2388,4 +2425,58 @@ pub fn gen_c13(rng: &mut Rng, d: &mut Dist, idx: u64) -> Vec<String> {
     }
     out.extend(base);
     out
+}
+
+
+/// the producer layer on top of a history: a producer built in every way the builder offers (options in random order,
+/// from hosts or from the scenario's client), then `send_all` / `send` of records with explicit partitions
+pub fn producer_block(rng: &mut Rng, d: &mut Dist, cl: &Cluster, out: &mut Vec<String>, uniq: &mut u32, from_client: bool) {
+    bump(d, "via-producer");
+    let mut opts: Vec<String> = Vec::new();
+    if rng.chance(2, 3) {
+        opts.push(format!("acks={}", rng.pick(&[1i64, -1, 1, 0])));
+    }
+    if rng.chance(1, 2) {
+        opts.push(format!("acktimeout={}:{}", rng.below(40), rng.below(1000) * 1_000_000));
+    }
+    if rng.chance(1, 2) {
+        opts.push(format!("partitioner={}", rng.below(5)));
+        bump(d, "producer-with-partitioner");
+    }
+    if rng.chance(1, 2) {
+        opts.push(format!("compression={}", rng.below(3)));
+    }
+    if rng.chance(1, 2) {
+        opts.push(format!("clientid={}", hex(&rng.rbytes(1, 6))));
+    }
+    if rng.chance(1, 4) {
+        opts.push(format!("idle={}", rng.pick(&[0u64, 60_000, 540000])));
+    }
+    rng.shuffle(&mut opts);
+    let from = if from_client { "client".to_string() } else { format!("hosts={}", cl.bootstrap()) };
+    out.push(format!("OP producer_create {} {}", from, opts.join(" ")));
+    for _ in 0..(1 + rng.below(3)) {
+        let single = rng.chance(1, 3);
+        let mut line = String::from(if single { "OP send" } else { "OP send_all" });
+        let n = if single { 1 } else { 1 + rng.below(6) };
+        let mut any = false;
+        for _ in 0..n {
+            *uniq += 1;
+            let t = rng.pick(&cl.topics);
+            let led: Vec<usize> = (0..t.leaders.len()).filter(|&p| t.leaders[p] >= 0).collect();
+            if led.is_empty() {
+                continue;
+            }
+            let p = *rng.pick(&led);
+            let k = if rng.chance(1, 2) { vec![] } else { rng.bytes(2) };
+            let mut v = uniq.to_be_bytes().to_vec();
+            let extra = rng.below(4) as usize;
+            v.extend(rng.bytes(extra));
+            line.push_str(&format!(" {} {} {} {}", h(&t.name), p, if k.is_empty() { "-".to_string() } else { hex(&k) }, hex(&v)));
+            any = true;
+        }
+        if any {
+            out.push(line);
+        }
+    }
 }
